@@ -1506,3 +1506,35 @@ REFACTORS += [
                         io_err
                     })?;''')]),
 ]
+
+# ---- mutants for the clauses added after the eighth seeded round
+MUTANTS += [
+    dict(name='mint_first_plus_count', props=['C17', 'C01', 'C06'], rules=['GC12'], desc='inc mints first + count instead of curr + 1',
+         edits=[(FNUM, '        let new_number = *curr.file_number + 1u64;', '        let new_number = *self.first().file_number + self.files.len() as u64;')]),
+    dict(name='mint_without_lookup', props=['C18', 'C06', 'C01'], rules=['GC12'], desc='inc mints curr + 1 without looking the successor up in the tracked set',
+         edits=[(FNUM, '''        if let Some(file) = self
+            .files
+            .range((Excluded(*curr.file_number), Unbounded))
+            .next()
+        {
+            return file.clone();
+        }
+        let new_number''', '''        let _ = (Excluded(0u64), Unbounded::<u64>);
+        let new_number''')]),
+    dict(name='batch_encoder_skips_empty_items', props=['C12', 'C07', 'C01'], rules=['CD8'], desc='serialize_with_pos continues past items with an empty payload, header included',
+         edits=[(REC, '            let record_payload = &mut record_payload;\n            output.extend_from_slice(&position.to_le_bytes());', '            let record_payload = &mut record_payload;\n            if !record_payload.has_remaining() {\n                continue;\n            }\n            output.extend_from_slice(&position.to_le_bytes());')]),
+    dict(name='lossy_name_cut_at_byte_10', props=['C10'], rules=['TAINT4'], desc='the non-UTF-8 name log slices a lossy String at byte 10',
+         edits=[(REC, '            let truncated_len = queue_bytes.len().min(10);', '            let lossy_name = String::from_utf8_lossy(queue_bytes);\n            let _name_start: &str = &lossy_name[..lossy_name.len().min(10)];\n            let truncated_len = queue_bytes.len().min(10);')]),
+    dict(name='position_pass_with_budget', props=['C01', 'C04', 'C18'], rules=['GC1'], desc='the position pass stops after a byte budget',
+         edits=[(MRL, '            num_bytes_written += self.record_log_writer.write_record(record)?;\n        }\n        if num_bytes_written > 0 {', '            num_bytes_written += self.record_log_writer.write_record(record)?;\n            if num_bytes_written > 1_000_000 {\n                break;\n            }\n        }\n        if num_bytes_written > 0 {')]),
+    dict(name='position_pass_tidies_queues', props=['C01', 'C04', 'C18'], rules=['GC1'], desc='the position pass calls a &mut method of the queues it walks',
+         edits=[(MRL, '            let next_position = queue.next_position();\n            let record = MultiPlexedRecord::RecordPosition {', '            let _ = queue.truncate_head(..=0u64);\n            let next_position = queue.next_position();\n            let record = MultiPlexedRecord::RecordPosition {')]),
+    dict(name='created_queue_starts_at_map_size', props=['C01', 'C04'], rules=['MQ1'], desc='create_queue builds the queue for a position read from the map',
+         edits=[(QS, '        self.queues.insert(queue.to_string(), MemQueue::default());', '        let position = self.queues.len() as u64;\n        self.queues.insert(queue.to_string(), MemQueue::with_next_position(position));')]),
+    dict(name='open_refuses_after_the_loop', props=['C09', 'C01'], rules=['RP6'], desc='open returns a Corruption of its own after the replay loop',
+         edits=[(MRL, '        // io errors are non-recoverable\n        let record_log_writer', '        if in_mem_queues.list_queues().next().is_none() && in_mem_queues.contains_queue("?") {\n            return Err(ReadRecordError::Corruption);\n        }\n        // io errors are non-recoverable\n        let record_log_writer')]),
+    dict(name='buffer_len_counts_capacity_share', props=['C16'], rules=['MA6'], desc='RollingBuffer::len adds a share of the capacity',
+         edits=[(RB, '    pub fn len(&self) -> usize {\n        self.buffer.len()\n    }', '    pub fn len(&self) -> usize {\n        self.buffer.len() + self.buffer.capacity() / 1024\n    }')]),
+    dict(name='undecodable_header_not_quarantined', props=['C08'], rules=['FR3'], desc='an undecodable header no longer sets block_corrupted',
+         edits=[(FRD, '            None => {\n                self.block_corrupted = true;\n                Err(ReadFrameError::Corruption)', '            None => {\n                self.cursor += HEADER_LEN;\n                Err(ReadFrameError::Corruption)')]),
+]
